@@ -77,11 +77,14 @@ private:
     return ym + -dm;
 }
 
-// [[nodiscard]] constexpr auto operator-(chrono::year_month const& ym1, chrono::year_month const&
-// ym2) noexcept
-//     -> chrono::months
-// {
-// }
+[[nodiscard]] constexpr auto operator-(chrono::year_month const& ym1, chrono::year_month const& ym2) noexcept
+    -> chrono::months
+{
+    auto const dy = static_cast<int_least32_t>(static_cast<int>(ym1.year()) - static_cast<int>(ym2.year()));
+    auto const dm = static_cast<int_least32_t>(static_cast<unsigned>(ym1.month()))
+                  - static_cast<int_least32_t>(static_cast<unsigned>(ym2.month()));
+    return chrono::months{dy * 12 + dm};
+}
 
 constexpr auto year_month::operator+=(months const& dm) noexcept -> year_month&
 {
